@@ -127,6 +127,12 @@ def prune_stages(tier):
     return st
 
 
+def fault_stages(tier):
+    if tier == 'thorough':
+        return [HS('fault-t', 'MC_AffTree_fault_t.cfg')]
+    return [HS('fault-q', 'MC_AffTree_fault_q.cfg')]
+
+
 def c07_stages(tier):
     st = [AT('arith-q', 'MC_AffTree_arith_q.cfg'), AT('arithaff-q', 'MC_AffTree_arithaff_q.cfg')]
     if tier == 'thorough':
@@ -185,6 +191,21 @@ CHECKS = {
         'design_ref': 'DESIGN.md 6/C03',
         'rule': 'one history script per (tree, pipeline[, right operand]); non-trivial = left tree has a decision',
         'assumptions': ['E-universe integer data; q=1', 'predicate alphabets contain strictly feasible, closed-empty, zero-width and zero-row cases'],
+    },
+    'C11': {
+        'stages': fault_stages,
+        'level': 'fault_enumeration',
+        'level_text': 'LP faults are environment actions of the elimination model (Error => Indeterminate, Unbounded => Feasible, perturbed / '
+                      'far-off witness => repaired inside the region or Indeterminate): for every tree and every fault plan of bounded size TLC '
+                      'checks function unchanged, caches sound, well-formed, only less pruning. On the real crate the harness learns the number N '
+                      'of LP calls of the fault-free run through the cfg(affinitree_verif) LP tap and re-runs infeasible_elimination and pruned '
+                      'composition once per plan (all subsets of call positions up to the bound x 4 fault kinds); TLC evaluates the C11 formulas '
+                      'on every recorded run (no panic, function unchanged by FM, cache formulas, nodes of the fault-free result all kept).',
+        'level_note': AFFTREE_NOTE + ' Fault kinds are the four of the property; perturbed = 0.01 outside a facet, far-off = 1000 outside. '
+                      'Subsets of size <= 1 (quick) / <= 2 (thorough), capped at 400 plans per scenario.',
+        'design_ref': 'DESIGN.md 6/C11',
+        'rule': 'one scenario per (tree, operation); evaluations = fault plans executed; non-trivial = the tree has a decision (so at least one LP call)',
+        'assumptions': ['the LP tap hook is the only source of faults; solver answers are otherwise real'],
     },
     'C07': {
         'stages': c07_stages,
